@@ -783,6 +783,17 @@ void eval_instruction (const char *p) {
           eval_cost = CONFIG_INT (__MAX_EVAL_COST__);
           error ("*Too long evaluation. Execution aborted.");
         }
+      /* Most instructions that push (F_LOCAL, F_GLOBAL, F_STRING, F_NUMBER, ...) do not look
+       * at the stack limit themselves, and the check at function entry only covers the
+       * locals: an expression such as ({ a, a, ... (100 values), f(n + 1) }) in a recursive
+       * function walked sp past the end of the allocation.  No single instruction pushes
+       * more values than the reserve behind end_of_stack holds (F_PUSH checks its count),
+       * so being below the limit before every instruction keeps sp inside the stack. */
+      if (sp >= end_of_stack)
+        {
+          set_error_state (ES_STACK_FULL);
+          error ("***Stack overflow!");
+        }
 #ifdef NEOLITH_VERIF
       if (verif_instr_hook)
         verif_instr_hook (instruction);
@@ -796,6 +807,7 @@ void eval_instruction (const char *p) {
         {
         case F_PUSH:		/* Push a number of things onto the stack */
           n = EXTRACT_UCHAR (pc++);
+          STACK_CHECK (n);
           while (n--)
             {
               i = EXTRACT_UCHAR (pc++);
